@@ -68,7 +68,9 @@ func (r *Report) add(key, pos string, v Verdict, nontrivial bool, format string,
 		key = fmt.Sprintf("%s#%d", key, n)
 	}
 	r.Obligs = append(r.Obligs, Oblig{Rule: r.curRule, Key: key, Pos: pos, Verdict: v, Reason: fmt.Sprintf(format, args...), NonTrivial: nontrivial})
-	if v != Info {
+	// (the placeholder "nothing of the kind in the tree" is no instance: a rule that saw instances when it was written
+	// and sees none any more is vacuous, whatever it says about the empty set)
+	if v != Info && !(key == "none" && !nontrivial) {
 		r.Rules[len(r.Rules)-1].Instances++
 	}
 }
